@@ -375,6 +375,13 @@ func (vlog *valueLog) rewrite(bucket uint32, fid uint32) error {
 		if kv.DiscardEntry(e, entry) {
 			return nil
 		}
+		if entry != e && entry.Version != kv.ParseTs(e.Key) {
+			// The LSM answered with another (older) version of the key: it holds no
+			// entry for this record's version - the write was lost in a crash or the
+			// version is gone - so the record is not live. Re-inserting it would
+			// bring a value back that no reader could see before.
+			return nil
+		}
 
 		if len(entry.Value) == 0 {
 			return errors.Errorf("empty value: %+v", entry)
